@@ -986,6 +986,21 @@ func checkPatcherDiscipline(e *Env, p *load.Program) {
 			lo := res.Of(call.Call.Args[len(call.Call.Args)-1], nil, call)
 			goodLabel := lo.Kind == origin.KField && lo.Field.Name() == want
 			r.Check(goodLabel, "E2.final", key+"/label", p.Pos(call.Pos()), sf+" is the distance to the jump's "+want, fmt.Sprintf("%s is computed for label %s, want the jump's %s: the branches are exchanged", sf, lo, want))
+			// ... measured from the jump itself: the record of the jump list (or its index), no arithmetic on it
+			if len(call.Call.Args) >= 2 {
+				jo := res.Of(call.Call.Args[len(call.Call.Args)-2], nil, call).StripConv()
+				fromJump := false
+				switch {
+				case jo.Kind == origin.KElem && strings.HasSuffix(jo.Args[0].String(), ".jumps"):
+					fromJump = true
+				case jo.Kind == origin.KField && jo.Field.Name() == "index" && jo.Args[0].Kind == origin.KElem && strings.HasSuffix(jo.Args[0].Args[0].String(), ".jumps"):
+					fromJump = true
+				case jo.Kind == origin.KParam || (jo.Kind == origin.KField && jo.Field.Name() == "index" && jo.Args[0].Kind == origin.KParam):
+					fromJump = true // inside a per-jump helper: its own jump parameter
+				}
+				// the label must belong to the same record
+				r.Check(fromJump, "E2.final", key+"/from-the-jump", p.Pos(call.Pos()), sf+" is measured from the jump's own position", fmt.Sprintf("%s is measured from %s, not from the jump's own position: the target is missed by the difference", sf, jo))
+			}
 			// no mutator call can execute between this read and the store of the instruction back into the list
 			var back *ssa.Store
 			for _, b2 := range fin.Blocks {
@@ -1157,7 +1172,7 @@ func checkPatcherDiscipline(e *Env, p *load.Program) {
 					good := so != nil
 					if good {
 						s := so.StripConv()
-						good = (s.Kind == origin.KCall && s.Callee == cs) || (s.Kind == origin.KPhi && allComputeSkip(s, cs)) || (s.Kind == origin.KUnknown && strings.HasPrefix(s.Name, "loop:"))
+						good = skipCallOfCurrentJump(s, cs) || (s.Kind == origin.KPhi && allComputeSkip(s, cs)) || (s.Kind == origin.KUnknown && strings.HasPrefix(s.Name, "loop:") && loopSkipEdgesGood(s.Val, res, cs))
 					}
 					r.Check(good, "E2.bridge", "Program.resolveLabel/jump-bridge-skip", p.Pos(c.Pos()),
 						"a Jump bridge placed directly behind the jump skips exactly the pre-insertion distance (lands on the shifted destination)",
@@ -1244,10 +1259,70 @@ func checkPatcherDiscipline(e *Env, p *load.Program) {
 	}
 }
 
+// loopSkipEdgesGood: the loop-carried skip variable: every value it takes is the skip computation for the activation's
+// own jump and label.
+func loopSkipEdgesGood(v ssa.Value, res *origin.Resolver, cs *ssa.Function) bool {
+	ph, ok := v.(*ssa.Phi)
+	if !ok {
+		return false
+	}
+	seen := map[*ssa.Phi]bool{}
+	var walk func(ph *ssa.Phi) bool
+	walk = func(ph *ssa.Phi) bool {
+		if seen[ph] {
+			return true
+		}
+		seen[ph] = true
+		for _, e := range ph.Edges {
+			x := flow.StripConv(e)
+			if p2, ok := x.(*ssa.Phi); ok {
+				if !walk(p2) {
+					return false
+				}
+				continue
+			}
+			c, ok := x.(*ssa.Call)
+			if !ok || flow.Callee(c) != cs {
+				return false
+			}
+			if !skipCallOfCurrentJump(res.Of(c, nil, c), cs) {
+				return false
+			}
+		}
+		return true
+	}
+	return walk(ph)
+}
+
+// skipCallOfCurrentJump: a call of the skip computation whose arguments are the activation's own jump (the JumpIf
+// parameter, its index, or an Index parameter - unchanged, no arithmetic) and its own label parameter.  The bridge sits
+// directly behind the jump and the insertion shifts the destination along with it, so the bridge's skip is exactly the
+// jump's pre-insertion distance; a distance computed from any other position (`index+1`) is off by one.
+func skipCallOfCurrentJump(s *origin.O, cs *ssa.Function) bool {
+	if s == nil || s.Kind != origin.KCall || s.Callee != cs {
+		return false
+	}
+	args := s.Args
+	if cs.Signature.Recv() != nil && len(args) > 0 {
+		args = args[1:]
+	}
+	if len(args) != 2 {
+		return false
+	}
+	j := args[0].StripConv()
+	okJump := j.Kind == origin.KParam || (j.Kind == origin.KField && j.Field.Name() == "index" && j.Args[0].Kind == origin.KParam)
+	l := args[1].StripConv()
+	okLabel := l.Kind == origin.KParam
+	return okJump && okLabel
+}
+
 func allComputeSkip(o *origin.O, cs *ssa.Function) bool {
 	for _, a := range o.Args {
 		s := a.StripConv()
 		if s.Kind == origin.KCall && s.Callee == cs {
+			if !skipCallOfCurrentJump(s, cs) {
+				return false
+			}
 			continue
 		}
 		if s.Kind == origin.KUnknown && strings.HasPrefix(s.Name, "loop:") {
